@@ -186,8 +186,10 @@ class Explorer:
         res.transitions = ntr
         res.conformed = nconf
         res.depth = max(depth) if res.exhaustive else (depth[front[0][0]] if front else max(depth))
-        # liveness on the closed graph
-        if want_edges and res.exhaustive and not viol:
+        # liveness on the closed graph; when a state / time cap stopped the search, on the part explored so far: the queries are existential
+        # over cycles and every recorded edge is a real transition between reachable states, so a lasso found there is genuine (a change
+        # that makes the state space explode is then still caught by the dead-lock it causes; silence of a capped run proves nothing)
+        if want_edges and not viol and (res.exhaustive or res.cap is not None):
             for q in H.live_queries:
                 rule, must, forbid, fair, doc = q
                 lasso = find_fair_cycle(len(parent), edges, must, forbid, fair)
